@@ -10,9 +10,9 @@ enum { F_BLEND, F_KEEP, F_CLEAR, F_MIN, F_MAX, F_MINMAX, F_CLAMP, F_ABS, F_NEG_A
 enum { OP_SC0 = F_COUNT, OP_COUNT = 2 * F_COUNT };
 // operands: v0 = a / x, v1 = b / lo, v2 = hi, v3 = mask lanes
 static const VpOp OPS[] = {
-    {"blend", {VK_INT, VK_INT_REL, VK_NONE, VK_BOOL}, {}, 2}, {"keep", {VK_INT, VK_NONE, VK_NONE, VK_BOOL}, {}, 1}, {"clear", {VK_INT, VK_NONE, VK_NONE, VK_BOOL}, {}, 1},
+    {"blend", {VK_INT, VK_INT_REL, VK_NONE, VK_BOOL}, {SK_SMALL}, 2}, {"keep", {VK_INT, VK_NONE, VK_NONE, VK_BOOL}, {SK_SMALL}, 2}, {"clear", {VK_INT, VK_NONE, VK_NONE, VK_BOOL}, {SK_SMALL}, 2},
     {"min", {VK_INT, VK_INT_REL}, {}, 2}, {"max", {VK_INT, VK_INT_REL}, {}, 2}, {"minmax", {VK_INT, VK_INT_REL}, {}, 1}, {"clamp", {VK_INT, VK_INT_REL, VK_INT_REL}, {}, 2},
-    {"abs", {VK_INT}, {}, 1}, {"neg_abs", {VK_INT}, {}, 1}, {"negate", {VK_INT, VK_NONE, VK_NONE, VK_BOOL}, {}, 2}, {"average", {VK_INT, VK_INT_REL}, {}, 3}, {"midpoint", {VK_INT, VK_INT_REL}, {}, 3},
+    {"abs", {VK_INT}, {}, 1}, {"neg_abs", {VK_INT}, {}, 1}, {"negate", {VK_INT, VK_NONE, VK_NONE, VK_BOOL}, {SK_SMALL}, 2}, {"average", {VK_INT, VK_INT_REL}, {}, 3}, {"midpoint", {VK_INT, VK_INT_REL}, {}, 3},
     {"copysign", {VK_INT, VK_INT_REL}, {}, 1},
     {"scalar_blend", {VK_INT, VK_INT_REL, VK_NONE, VK_BOOL}, {}, 1}, {"scalar_keep", {VK_INT, VK_NONE, VK_NONE, VK_BOOL}, {}, 1}, {"scalar_clear", {VK_INT, VK_NONE, VK_NONE, VK_BOOL}, {}, 1},
     {"scalar_min", {VK_INT, VK_INT_REL}, {}, 1}, {"scalar_max", {VK_INT, VK_INT_REL}, {}, 1}, {"scalar_minmax", {VK_INT, VK_INT_REL}, {}, 1}, {"scalar_clamp", {VK_INT, VK_INT_REL, VK_INT_REL}, {}, 1},
@@ -175,7 +175,9 @@ template<class V> static void run(const VpCase* c, VpOutcome* o) {
     bool have = false, two = false;
     poison_below(c->v[0][0] ^ c->v[3][0] ^ c->op);
     if (!scalar) {
-        V a = mk<V>(al), b = mk<V>(bl), cc = mk<V>(cl); M m = mkmask<M>(ml);
+        V a = mk<V>(al), b = mk<V>(bl), cc = mk<V>(cl);
+        // the mask reaches the operation through one of several producers (s0): primitive, comparison, std::array<bool>, insert<I> chains, Mask(vector)
+        M m = mask_via<V>((unsigned)(c->s[0] < 0 ? -c->s[0] : c->s[0]), ml);
         V r{}; SV rs{}; std::array<V, 2> rr{};
         switch (f) {
         case F_BLEND: have = Call<has_blend<V, M, V, V>::value>::go(fn_blend(), r, m, a, b); break;
@@ -272,13 +274,19 @@ extern "C" void vp_enum(int tier, uint64_t seed, uint32_t shard, uint32_t nshard
                     // masks: rotate through all-set, all-clear, alternating and pseudo-random lane patterns
                     uint64_t pat = cnt % 4 == 0 ? ~0ull : cnt % 4 == 1 ? 0 : cnt % 4 == 2 ? 0x5555555555555555ull : (cnt * 0x9E3779B97F4A7C15ull);
                     c.v[3][lane] = masked ? ((pat >> (lane % 64)) & 1) : 0;
-                    if (++fill == W) { emit(&c, ctx); fill = 0; ++rot; ++cnt; }
+                    if (++fill == W) { c.s[0] = masked ? (int64_t)(cnt % VP_MASK_PRODUCERS) : 0; emit(&c, ctx); fill = 0; ++rot; ++cnt; }
                 }
             if (fill) emit(&c, ctx);
-            // all mask patterns for narrow vectors on a fixed heterogeneous payload
+            // all mask patterns for narrow vectors on a fixed heterogeneous payload, through every mask producer
             if (masked && W <= 16 && W > 1) {
-                for (unsigned lane = 0; lane < W; ++lane) { c.v[0][lane] = L[(lane * 37 + 5) % n]; c.v[1][lane] = L[(lane * 11 + 3) % n]; }
-                for (uint64_t pat = 0; pat < (uint64_t(1) << W); ++pat) { for (unsigned lane = 0; lane < W; ++lane) c.v[3][lane] = (pat >> lane) & 1; emit(&c, ctx); }
+                for (unsigned lane = 0; lane < W; ++lane) { c.v[0][lane] = L[(lane * 37 + 5) % n] | (uint64_t(0x81) << (B - 8)) | 0x81; c.v[1][lane] = L[(lane * 11 + 3) % n]; }
+                for (unsigned prod = 0; prod < VP_MASK_PRODUCERS; ++prod)
+                    for (uint64_t pat = 0; pat < (uint64_t(1) << W); pat += (W == 16 && prod ? 7 : 1)) { for (unsigned lane = 0; lane < W; ++lane) c.v[3][lane] = (pat >> lane) & 1; c.s[0] = prod; emit(&c, ctx); }
+            }
+            else if (masked && W > 16) {
+                for (unsigned lane = 0; lane < W; ++lane) { c.v[0][lane] = L[(lane * 37 + 5) % n] | (uint64_t(0x81) << (B - 8)) | 0x81; c.v[1][lane] = L[(lane * 11 + 3) % n]; }
+                for (unsigned prod = 0; prod < VP_MASK_PRODUCERS; ++prod)
+                    for (unsigned k = 0; k < 3 * W; ++k) { for (unsigned lane = 0; lane < W; ++lane) c.v[3][lane] = k < W ? (lane == k) : k < 2 * W ? (lane != k - W) : (((k * 0x9E3779B97F4A7C15ull) >> (lane % 64)) & 1); c.s[0] = prod; emit(&c, ctx); }
             }
         }
     }
